@@ -755,3 +755,15 @@ impl Repr {
         unsafe { &mut *(self as *mut _ as *mut StaticBuffer) }
     }
 }
+
+#[cfg(feature = "verif-hooks")]
+impl Repr {
+    pub(crate) fn verif_refcount(&self) -> Option<usize> {
+        if self.is_heap_buffer() {
+            // SAFETY: We just checked that `self` is HeapBuffer
+            Some(unsafe { self.as_heap_buffer() }.reference_count().load(Relaxed))
+        } else {
+            None
+        }
+    }
+}
